@@ -7,7 +7,6 @@ import (
 	"math"
 	"math/big"
 
-	"github.com/makiuchi-d/gozxing"
 	"github.com/makiuchi-d/gozxing/oned"
 
 	"verifharness/fw"
@@ -33,11 +32,6 @@ func runsFrom(row []bool, start int) []int {
 		i = j
 	}
 	return out
-}
-
-func isNotFound(err error) bool {
-	_, ok := err.(gozxing.NotFoundException)
-	return ok
 }
 
 func genRow(rng *fw.Rand, n int) []bool {
@@ -165,18 +159,6 @@ func c20Record(r *fw.Rec, n int) {
 		}
 	}
 	r.Nontrivial("row/" + boolsToStr(rowM))
-}
-
-func boolsToStr(b []bool) string {
-	s := make([]byte, len(b))
-	for i, v := range b {
-		if v {
-			s[i] = '#'
-		} else {
-			s[i] = '.'
-		}
-	}
-	return string(s)
 }
 
 // refVariance evaluates the contract exactly in integers scaled by the
@@ -455,16 +437,4 @@ func c20(c *fw.Ctx) {
 	c.Floor("variance_inf_cases", 1000)
 	c.Floor("variance_finite_cases", 1000)
 	c.Floor("variance_zero_cases", 10)
-}
-
-func hashInts(a, b []int) uint64 {
-	h := uint64(1469598103934665603)
-	for _, v := range a {
-		h = (h ^ uint64(v+1)) * 1099511628211
-	}
-	h = (h ^ 0xFF) * 1099511628211
-	for _, v := range b {
-		h = (h ^ uint64(v+1)) * 1099511628211
-	}
-	return h
 }
